@@ -491,4 +491,450 @@ theorem utf8Valid_renderStr (s : Bytes) (hs : utf8Valid s = true) :
   exact this
 
 
+/-! ## Item 3: values -/
+
+/-- First byte of a rendered value. -/
+def startByte (c : UInt8) : Bool :=
+  c = 110 || c = 116 || c = 102 || c = 34 || c = 91 || c = 123 || c = 45 || isDigit c
+
+theorem startByte_props (c : UInt8) (h : startByte c = true) :
+    isWs c = false ∧ c ≠ 93 ∧ c ≠ 125 ∧ c ≠ 44 :=
+  byte_forall (P := fun c => startByte c = true → isWs c = false ∧ c ≠ 93 ∧ c ≠ 125 ∧ c ≠ 44)
+    (by decide +kernel) c h
+
+theorem numStart_props (c : UInt8) (h : c = 45 ∨ isDigit c = true) :
+    isWs c = false ∧ c ≠ 110 ∧ c ≠ 116 ∧ c ≠ 102 ∧ c ≠ 34 ∧ c ≠ 91 ∧ c ≠ 123 :=
+  byte_forall (P := fun c => (c = 45 ∨ isDigit c = true) →
+      isWs c = false ∧ c ≠ 110 ∧ c ≠ 116 ∧ c ≠ 102 ∧ c ≠ 34 ∧ c ≠ 91 ∧ c ≠ 123)
+    (by decide +kernel) c h
+
+theorem renderNat_head (n : Nat) : ∃ c r, renderNat n = c :: r ∧ isDigit c = true := by
+  have hs := renderNat_spec n
+  cases h : renderNat n with
+  | nil => exact absurd h hs.ne
+  | cons c r => exact ⟨c, r, rfl, hs.allDigit c (by rw [h]; simp)⟩
+
+theorem renderInt_head (i : Int) :
+    ∃ c r, renderInt i = c :: r ∧ (c = 45 ∨ isDigit c = true) := by
+  unfold renderInt
+  split
+  · exact ⟨45, _, rfl, Or.inl rfl⟩
+  · obtain ⟨c, r, h, hd⟩ := renderNat_head i.natAbs
+    exact ⟨c, r, h, Or.inr hd⟩
+
+theorem renderDec_head (m e : Int) :
+    ∃ c r, renderDec m e = c :: r ∧ (c = 45 ∨ isDigit c = true) := by
+  obtain ⟨d, ds', hds, hd⟩ := renderNat_head m.natAbs
+  unfold renderDec
+  split
+  · split
+    · exact ⟨45, _, rfl, Or.inl rfl⟩
+    · exact ⟨48, _, rfl, Or.inr (by decide)⟩
+  · simp only []
+    split
+    · exact ⟨45, _, rfl, Or.inl rfl⟩
+    · rw [hds]
+      simp only [List.nil_append]
+      split
+      · exact ⟨d, _, rfl, Or.inr hd⟩
+      · split
+        · rename_i h
+          obtain ⟨k, hk⟩ : ∃ k, (((d :: ds').length : Int) + e).toNat = k + 1 :=
+            ⟨(((d :: ds').length : Int) + e).toNat - 1, by omega⟩
+          rw [hk]
+          exact ⟨d, _, rfl, Or.inr hd⟩
+        · split
+          · exact ⟨48, _, rfl, Or.inr (by decide)⟩
+          · cases ds' with
+            | nil => exact ⟨d, _, rfl, Or.inr hd⟩
+            | cons a as => exact ⟨d, _, rfl, Or.inr hd⟩
+
+theorem startByte_of_num {c : UInt8} (h : c = 45 ∨ isDigit c = true) : startByte c = true := by
+  unfold startByte
+  cases h with
+  | inl h => subst h; decide
+  | inr h => simp [h]
+
+theorem render_head : ∀ v : JVal, ∃ c r, render v = c :: r ∧ startByte c = true
+  | .null => ⟨_, _, by rw [render], by decide⟩
+  | .bool true => ⟨_, _, by rw [render], by decide⟩
+  | .bool false => ⟨_, _, by rw [render], by decide⟩
+  | .int i => by
+    obtain ⟨c, r, h, hc⟩ := renderInt_head i
+    exact ⟨c, r, by rw [render, h], startByte_of_num hc⟩
+  | .dec m e => by
+    obtain ⟨c, r, h, hc⟩ := renderDec_head m e
+    exact ⟨c, r, by rw [render, h], startByte_of_num hc⟩
+  | .str s => ⟨_, _, by rw [render, renderStr], by decide⟩
+  | .arr [] => ⟨_, _, by rw [render], by decide⟩
+  | .arr (x :: xs) => ⟨_, _, by rw [render], by decide⟩
+  | .obj [] => ⟨_, _, by rw [render], by decide⟩
+  | .obj ((k, v) :: kvs) => ⟨_, _, by rw [render], by decide⟩
+
+theorem skipWs_cons {c : UInt8} (rest : Bytes) (h : isWs c = false) :
+    skipWs (c :: rest) = c :: rest := by
+  simp [skipWs, h]
+
+/-! ### Single steps of the parser -/
+
+theorem parseValue_number (d f : Nat) (c : UInt8) (rest : Bytes)
+    (h : c = 45 ∨ isDigit c = true) :
+    parseValue d (f + 1) (c :: rest) = parseNumber (c :: rest) := by
+  obtain ⟨h0, h1, h2, h3, h4, h5, h6⟩ := numStart_props c h
+  have h' : c = 45 ∨ isDigit c = true := h
+  rw [parseValue, skipWs_cons _ h0]
+  simp only [h1, h2, h3, h4, h5, h6, if_false, h', if_true]
+
+theorem parseValue_str (d f : Nat) (s tl : Bytes) :
+    parseValue d (f + 1) (renderStr s ++ tl) = some (.str s, tl) := by
+  have h := parseStrLit_renderStr' s tl
+  rw [parseValue]
+  simp only [renderStr, List.cons_append, List.append_assoc, List.nil_append]
+  rw [skipWs_cons _ (by decide)]
+  simp only [show ((34 : UInt8) = 110) = False by decide, show ((34 : UInt8) = 116) = False by decide,
+    show ((34 : UInt8) = 102) = False by decide, if_false, if_true, h]
+
+theorem parseValue_arr_cons (d f : Nat) (c : UInt8) (rest : Bytes) (h : startByte c = true) :
+    parseValue (d + 1) (f + 1) (91 :: c :: rest) =
+      match parseValue d f (c :: rest) with
+      | none => none
+      | some (v, r) => parseElems d f [v] r := by
+  obtain ⟨h0, h1, _, _⟩ := startByte_props c h
+  rw [parseValue, skipWs_cons _ (by decide)]
+  simp only [show ((91 : UInt8) = 110) = False by decide, show ((91 : UInt8) = 116) = False by decide,
+    show ((91 : UInt8) = 102) = False by decide, show ((91 : UInt8) = 34) = False by decide,
+    if_false, if_true]
+  rw [skipWs_cons _ h0]
+  simp only [h1, if_false]
+  rfl
+
+theorem parseValue_obj_cons (d f : Nat) (c : UInt8) (rest : Bytes) (h : startByte c = true) :
+    parseValue (d + 1) (f + 1) (123 :: c :: rest) = parseMembers d f [] (c :: rest) := by
+  obtain ⟨h0, _, h1, _⟩ := startByte_props c h
+  rw [parseValue, skipWs_cons _ (by decide)]
+  simp only [show ((123 : UInt8) = 110) = False by decide,
+    show ((123 : UInt8) = 116) = False by decide,
+    show ((123 : UInt8) = 102) = False by decide, show ((123 : UInt8) = 34) = False by decide,
+    show ((123 : UInt8) = 91) = False by decide, if_false, if_true]
+  rw [skipWs_cons _ h0]
+  simp only [h1, if_false]
+
+theorem parseElems_close (d f : Nat) (acc : List JVal) (rest : Bytes) :
+    parseElems d (f + 1) acc (93 :: rest) = some (.arr acc.reverse, rest) := by
+  rw [parseElems, skipWs_cons _ (by decide)]
+  simp only [if_true]
+
+theorem parseElems_comma (d f : Nat) (acc : List JVal) (rest : Bytes) :
+    parseElems d (f + 1) acc (44 :: rest) =
+      match parseValue d f rest with
+      | none => none
+      | some (v, r) => parseElems d f (v :: acc) r := by
+  rw [parseElems, skipWs_cons _ (by decide)]
+  simp only [show ((44 : UInt8) = 93) = False by decide, if_false, if_true]
+  rfl
+
+theorem parseMembers_step (d f : Nat) (acc : List (Bytes × JVal)) (k : Bytes) (v : JVal)
+    (r2 r4 : Bytes) (c' : UInt8) (hws : isWs c' = false)
+    (hv : parseValue d f r2 = some (v, c' :: r4)) :
+    parseMembers d (f + 1) acc (renderStr k ++ 58 :: r2) =
+      if c' = 125 then some (.obj (insertKV k v acc), r4)
+      else if c' = 44 then parseMembers d f (insertKV k v acc) r4
+      else none := by
+  have h := parseStrLit_renderStr' k (58 :: r2)
+  rw [parseMembers]
+  simp only [renderStr, List.cons_append, List.append_assoc, List.nil_append]
+  rw [skipWs_cons _ (by decide)]
+  simp only [if_true, h]
+  rw [skipWs_cons _ (by decide)]
+  simp only [if_true, hv]
+  rw [skipWs_cons _ hws]
+
+
+/-! ### Key order and `insertKV` -/
+
+theorem bytesLt_irrefl : ∀ a : Bytes, bytesLt a a = false
+  | [] => rfl
+  | x :: xs => by
+    have : ¬ x < x := UInt8.lt_irrefl x
+    simp [bytesLt, this, bytesLt_irrefl xs]
+
+theorem bytesLt_trans : ∀ a b c : Bytes, bytesLt a b = true → bytesLt b c = true →
+    bytesLt a c = true
+  | [], [], _ => by simp [bytesLt]
+  | [], _ :: _, [] => by simp [bytesLt]
+  | [], _ :: _, _ :: _ => by simp [bytesLt]
+  | _ :: _, [], _ => by simp [bytesLt]
+  | _ :: _, _ :: _, [] => by simp [bytesLt]
+  | x :: xs, y :: ys, z :: zs => by
+    intro h1 h2
+    have ih := bytesLt_trans xs ys zs
+    simp only [bytesLt] at h1 h2 ⊢
+    simp only [UInt8.lt_iff_toNat_lt, ← UInt8.toNat_inj] at h1 h2 ⊢
+    by_cases hxy : x.toNat < y.toNat
+    · by_cases hyz : y.toNat < z.toNat
+      · have : x.toNat < z.toNat := by omega
+        simp [this]
+      · simp only [hyz, if_false] at h2
+        by_cases hyz' : y.toNat = z.toNat
+        · have : x.toNat < z.toNat := by omega
+          simp [this]
+        · simp [hyz'] at h2
+    · simp only [hxy, if_false] at h1
+      by_cases hxy' : x.toNat = y.toNat
+      · simp only [hxy', if_true] at h1
+        by_cases hyz : y.toNat < z.toNat
+        · have : x.toNat < z.toNat := by omega
+          simp [this]
+        · simp only [hyz, if_false] at h2
+          by_cases hyz' : y.toNat = z.toNat
+          · simp only [hyz', if_true] at h2
+            have h3 : ¬ x.toNat < z.toNat := by omega
+            have h4 : x.toNat = z.toNat := by omega
+            rw [if_neg h3, if_pos h4]
+            exact ih h1 h2
+          · simp [hyz'] at h2
+      · simp [hxy'] at h1
+
+theorem bytesLt_asymm (a b : Bytes) (h : bytesLt a b = true) : bytesLt b a = false := by
+  cases hba : bytesLt b a with
+  | false => rfl
+  | true =>
+    have := bytesLt_trans a b a h hba
+    rw [bytesLt_irrefl] at this
+    cases this
+
+theorem bytesLt_ne (a b : Bytes) (h : bytesLt a b = true) : b ≠ a := by
+  intro e; subst e; rw [bytesLt_irrefl] at h; cases h
+
+theorem keysSorted_tail {m : Bytes × JVal} {l : List (Bytes × JVal)}
+    (h : keysSorted (m :: l) = true) : keysSorted l = true := by
+  cases l with
+  | nil => rfl
+  | cons m' l' =>
+    obtain ⟨k, v⟩ := m; obtain ⟨k', v'⟩ := m'
+    simp only [keysSorted, Bool.and_eq_true] at h
+    exact h.2
+
+theorem keysSorted_head_lt : ∀ (l : List (Bytes × JVal)) (k : Bytes) (v : JVal),
+    keysSorted ((k, v) :: l) = true → ∀ m ∈ l, bytesLt k m.1 = true
+  | [], _, _, _ => by simp
+  | (k', v') :: l, k, v, h => by
+    simp only [keysSorted, Bool.and_eq_true] at h
+    intro m hm
+    simp only [List.mem_cons] at hm
+    cases hm with
+    | inl e => subst e; exact h.1
+    | inr hm => exact bytesLt_trans _ _ _ h.1 (keysSorted_head_lt l k' v' h.2 m hm)
+
+theorem insertKV_sorted : ∀ (acc : List (Bytes × JVal)) (k : Bytes) (v : JVal)
+    (rest : List (Bytes × JVal)), keysSorted (acc ++ (k, v) :: rest) = true →
+    insertKV k v acc = acc ++ [(k, v)]
+  | [], _, _, _, _ => rfl
+  | (k0, v0) :: acc, k, v, rest, h => by
+    have hlt : bytesLt k0 k = true :=
+      keysSorted_head_lt (acc ++ (k, v) :: rest) k0 v0 h (k, v) (by simp)
+    have h1 := bytesLt_asymm _ _ hlt
+    have h2 := bytesLt_ne _ _ hlt
+    have ih := insertKV_sorted acc k v rest (keysSorted_tail h)
+    simp [insertKV, h1, h2, ih]
+
+/-! ### The generalised round trip -/
+
+theorem numEnd_elems (xs : List JVal) (tl : Bytes) : numEnd (renderElems xs ++ tl) := by
+  cases xs with
+  | nil => rw [renderElems]; exact ⟨by decide, by decide, by decide, by decide⟩
+  | cons x xs => rw [renderElems]; exact ⟨by decide, by decide, by decide, by decide⟩
+
+theorem numEnd_members (kvs : List (Bytes × JVal)) (tl : Bytes) :
+    numEnd (renderMembers kvs ++ tl) := by
+  cases kvs with
+  | nil => rw [renderMembers]; exact ⟨by decide, by decide, by decide, by decide⟩
+  | cons m kvs =>
+    obtain ⟨k, v⟩ := m
+    rw [renderMembers]; exact ⟨by decide, by decide, by decide, by decide⟩
+
+
+/-- The number scanner reads back rendered non-integer numbers (proved below). -/
+def DecOK : Prop := ∀ (m e : Int) (tl : Bytes), (JVal.dec m e).wf = true → numEnd tl →
+  parseNumber (renderDec m e ++ tl) = some (.dec m e, tl)
+
+theorem numEnd_125 (tl : Bytes) : numEnd (125 :: tl) :=
+  ⟨by decide, by decide, by decide, by decide⟩
+
+mutual
+  theorem parseValue_render (hdec : DecOK) : ∀ (v : JVal) (d fuel : Nat) (tl : Bytes),
+      v.wf = true → v.depth ≤ d → (render v).length ≤ fuel → numEnd tl →
+      parseValue d fuel (render v ++ tl) = some (v, tl)
+    | .null, d, fuel, tl, _, _, hf, _ => by
+      rw [render] at hf ⊢
+      cases fuel with
+      | zero => simp at hf
+      | succ f => simp [parseValue, skipWs, isWs, stripPrefix]
+    | .bool true, d, fuel, tl, _, _, hf, _ => by
+      rw [render] at hf ⊢
+      cases fuel with
+      | zero => simp at hf
+      | succ f => simp [parseValue, skipWs, isWs, stripPrefix]
+    | .bool false, d, fuel, tl, _, _, hf, _ => by
+      rw [render] at hf ⊢
+      cases fuel with
+      | zero => simp at hf
+      | succ f => simp [parseValue, skipWs, isWs, stripPrefix]
+    | .int i, d, fuel, tl, hwf, _, hf, htl => by
+      rw [render] at hf ⊢
+      simp only [JVal.wf, Bool.and_eq_true, decide_eq_true_eq] at hwf
+      have hnum := parseNumber_renderInt i tl hwf.1 hwf.2 htl
+      obtain ⟨c, r, h, hc⟩ := renderInt_head i
+      rw [h] at hf hnum ⊢
+      cases fuel with
+      | zero => simp at hf
+      | succ f => rw [List.cons_append, parseValue_number _ _ _ _ hc]; exact hnum
+    | .dec m e, d, fuel, tl, hwf, _, hf, htl => by
+      have hnum := hdec m e tl hwf htl
+      rw [render] at hf ⊢
+      obtain ⟨c, r, h, hc⟩ := renderDec_head m e
+      rw [h] at hf hnum ⊢
+      cases fuel with
+      | zero => simp at hf
+      | succ f => rw [List.cons_append, parseValue_number _ _ _ _ hc]; exact hnum
+    | .str s, d, fuel, tl, _, _, hf, _ => by
+      rw [render] at hf ⊢
+      cases fuel with
+      | zero => simp [renderStr] at hf
+      | succ f => exact parseValue_str d f s tl
+    | .arr [], d, fuel, tl, _, hd, hf, _ => by
+      rw [render] at hf ⊢
+      simp only [JVal.depth] at hd
+      cases fuel with
+      | zero => simp at hf
+      | succ f =>
+        cases d with
+        | zero => omega
+        | succ d' => simp [parseValue, skipWs, isWs]
+    | .arr (x :: xs), d, fuel, tl, hwf, hd, hf, _ => by
+      obtain ⟨c, r, hx, hc⟩ := render_head x
+      simp only [JVal.wf, wfList, Bool.and_eq_true] at hwf
+      simp only [JVal.depth, depthList] at hd
+      rw [render] at hf ⊢
+      simp only [List.length_cons, List.length_append] at hf
+      cases d with
+      | zero => omega
+      | succ d' =>
+        cases fuel with
+        | zero => omega
+        | succ f =>
+          have ihx := parseValue_render hdec x d' f (renderElems xs ++ tl) hwf.1 (by omega)
+            (by omega) (numEnd_elems xs tl)
+          have ihxs := parseElems_render hdec xs d' f [x] tl hwf.2 (by omega) (by omega)
+          simp only [List.cons_append, List.append_assoc]
+          rw [hx] at ihx ⊢
+          simp only [List.cons_append] at ihx ⊢
+          rw [parseValue_arr_cons _ _ _ _ hc, ihx]
+          simpa using ihxs
+    | .obj [], d, fuel, tl, _, hd, hf, _ => by
+      rw [render] at hf ⊢
+      simp only [JVal.depth] at hd
+      cases fuel with
+      | zero => simp at hf
+      | succ f =>
+        cases d with
+        | zero => omega
+        | succ d' => simp [parseValue, skipWs, isWs]
+    | .obj ((k, v) :: kvs), d, fuel, tl, hwf, hd, hf, _ => by
+      simp only [JVal.wf, wfMembers, Bool.and_eq_true] at hwf
+      simp only [JVal.depth, depthMembers] at hd
+      rw [render] at hf ⊢
+      simp only [List.length_cons, List.length_append] at hf
+      cases d with
+      | zero => omega
+      | succ d' =>
+        cases fuel with
+        | zero => omega
+        | succ f =>
+          have ihv : ∀ (f' : Nat) (tl' : Bytes), (render v).length ≤ f' → numEnd tl' →
+              parseValue d' f' (render v ++ tl') = some (v, tl') :=
+            fun f' tl' hf' htl' => parseValue_render hdec v d' f' tl' hwf.2.1.2 (by omega) hf' htl'
+          have ihm := parseMembers_render hdec kvs k v d' f [] tl ihv hwf.2.2 (by omega)
+            (by simpa using hwf.1) (by omega)
+          have h34 : startByte 34 = true := by decide
+          simp only [List.cons_append, List.append_assoc]
+          simp only [renderStr, List.cons_append, List.append_assoc] at ihm ⊢
+          rw [parseValue_obj_cons _ _ _ _ h34]
+          simpa using ihm
+  theorem parseElems_render (hdec : DecOK) : ∀ (xs : List JVal) (d fuel : Nat) (acc : List JVal)
+      (tl : Bytes), wfList xs = true → depthList xs ≤ d → (renderElems xs).length ≤ fuel →
+      parseElems d fuel acc (renderElems xs ++ tl) = some (.arr (acc.reverse ++ xs), tl)
+    | [], d, fuel, acc, tl, _, _, hf => by
+      rw [renderElems] at hf ⊢
+      cases fuel with
+      | zero => simp at hf
+      | succ f => rw [List.cons_append, parseElems_close]; simp
+    | x :: xs, d, fuel, acc, tl, hwf, hd, hf => by
+      simp only [wfList, Bool.and_eq_true] at hwf
+      simp only [depthList] at hd
+      rw [renderElems] at hf ⊢
+      simp only [List.length_cons, List.length_append] at hf
+      cases fuel with
+      | zero => omega
+      | succ f =>
+        have ihx := parseValue_render hdec x d f (renderElems xs ++ tl) hwf.1 (by omega)
+          (by omega) (numEnd_elems xs tl)
+        have ihxs := parseElems_render hdec xs d f (x :: acc) tl hwf.2 (by omega) (by omega)
+        rw [List.cons_append, parseElems_comma, List.append_assoc, ihx]
+        simp only []
+        rw [ihxs]
+        simp
+  theorem parseMembers_render (hdec : DecOK) : ∀ (kvs : List (Bytes × JVal)) (k : Bytes)
+      (v : JVal) (d fuel : Nat) (acc : List (Bytes × JVal)) (tl : Bytes),
+      (∀ (f' : Nat) (tl' : Bytes), (render v).length ≤ f' → numEnd tl' →
+        parseValue d f' (render v ++ tl') = some (v, tl')) →
+      wfMembers kvs = true → depthMembers kvs ≤ d →
+      keysSorted (acc ++ (k, v) :: kvs) = true →
+      (render v).length + (renderMembers kvs).length + 1 ≤ fuel →
+      parseMembers d fuel acc (renderStr k ++ 58 :: (render v ++ renderMembers kvs) ++ tl)
+        = some (.obj (acc ++ (k, v) :: kvs), tl)
+    | [], k, v, d, fuel, acc, tl, hv, _, _, hs, hf => by
+      rw [renderMembers] at hf ⊢
+      cases fuel with
+      | zero => omega
+      | succ f =>
+        have h1 := hv f (125 :: tl) (by simp at hf; omega) (numEnd_125 tl)
+        have h2 := parseMembers_step d f acc k v (render v ++ 125 :: tl) tl 125 (by decide) h1
+        simp only [List.append_assoc, List.cons_append, List.nil_append] at h2 ⊢
+        rw [h2]
+        simp only [if_true]
+        rw [insertKV_sorted acc k v [] hs]
+    | (k', v') :: kvs, k, v, d, fuel, acc, tl, hv, hwf, hd, hs, hf => by
+      simp only [wfMembers, Bool.and_eq_true] at hwf
+      simp only [depthMembers] at hd
+      rw [renderMembers] at hf ⊢
+      simp only [List.length_cons, List.length_append] at hf
+      cases fuel with
+      | zero => omega
+      | succ f =>
+        have hne : numEnd (44 :: (renderStr k' ++ 58 :: (render v' ++ renderMembers kvs) ++ tl)) :=
+          ⟨by decide, by decide, by decide, by decide⟩
+        have h1 := hv f _ (by omega) hne
+        have h2 := parseMembers_step d f acc k v _ _ 44 (by decide) h1
+        have hins := insertKV_sorted acc k v _ hs
+        have ihv : ∀ (f' : Nat) (tl' : Bytes), (render v').length ≤ f' → numEnd tl' →
+            parseValue d f' (render v' ++ tl') = some (v', tl') :=
+          fun f' tl' hf' htl' => parseValue_render hdec v' d f' tl' hwf.1.2 (by omega) hf' htl'
+        have ihm := parseMembers_render hdec kvs k' v' d f (acc ++ [(k, v)]) tl ihv hwf.2
+          (by omega) (by simpa using hs) (by omega)
+        simp only [List.append_assoc, List.cons_append, List.nil_append] at h2 ihm ⊢
+        rw [h2, if_neg (by decide)]
+        simp only [if_true]
+        rw [hins, ihm]
+end
+
+/-- Depth bound of the real parser. -/
+theorem parse_render_of (hdec : DecOK) (v : JVal) (hwf : v.wf = true)
+    (hd : v.depth ≤ maxNesting) : parse (render v) = some v := by
+  have h := parseValue_render hdec v maxNesting ((render v).length + 1) [] hwf hd (by omega)
+    trivial
+  rw [List.append_nil] at h
+  simp [parse, h, skipWs]
+
+
 end Cacache.Json
